@@ -174,6 +174,9 @@ def _hc(st, data, cfg, base, COLS=COLS):
     from pgmpy.estimators import HillClimbSearch
 
     df = pd.DataFrame(data, columns=COLS)
+    if len(df) and sum(map(sum, data)) % 3 == 1:
+        # the frame's index is not content: descending, gapped labels on every third data set
+        df.index = [3 * (len(df) - i) + 2 for i in range(len(df))]
     nm = lambda e: (COLS[e[0]], COLS[e[1]])
     start_edges = [nm(e) for e in (cfg["start"] or [])]
     fixed = {nm(e) for e in cfg["fixed"]}
@@ -296,6 +299,9 @@ def _ex(st, data, base):
     from pgmpy.estimators import BicScore, ExhaustiveSearch, K2Score
 
     df = pd.DataFrame(data, columns=COLS)
+    if len(df) and sum(map(sum, data)) % 3 == 1:
+        # the frame's index is not content: descending, gapped labels on every third data set
+        df.index = [3 * (len(df) - i) + 2 for i in range(len(df))]
     st.states += 1
     for sname, cls in (("k2", K2Score), ("bic", BicScore)):
         case = dict(base, site="ExhaustiveSearch", score=sname)
